@@ -216,7 +216,7 @@ pub fn replay_case(id: &str, op: &str, case: &serde_json::Value) -> Result<(), S
         (_, "eq_pair") => c06::replay_case(case),
         (_, "hash_pair") => c07::replay_case(case),
         (_, "typst_collision") | (_, "typst_render") => c16::replay_case(case),
-        (_, "parse_sequence") | (_, "lexical_sequence") | (_, "volume") | (_, "soak") => c08::replay_case(case),
+        (_, "parse_sequence") | (_, "lexical_sequence") | (_, "volume") | (_, "soak") | (_, "target_routes") => c08::replay_case(case),
         (_, "mutator_history") | (_, "set_name_once") => c17::replay_case(case),
         (_, "spacing") | (_, "spacing_batch") => c09::replay_case(case),
         (_, "truth_floats") | (_, "budget_floats") | (_, "evident_number") => c13::replay_case(case),
